@@ -454,6 +454,10 @@ CLS_DRIVER = r"""
 """
 
 
+# members of further types that only the Python class declares (constructor values; reals in quarters)
+EXTRA_INIT = {"us": 7, "u8": 3, "ll": 100, "fl": 6, "flag": 1}
+
+
 def member_trace(events, cls="Cls", out=None):
     """The log of a run as a sequence of specs/Members.tla actions: constructor / destructor / get() / set() events of
     the instrumented library, MemberSet / MemberGet events of the driver.  Objects are numbered in order of appearance."""
@@ -474,12 +478,12 @@ def member_trace(events, cls="Cls", out=None):
             pend["ctor"] = num(vals[0])
         elif ev == "LibExit" and f == cls + "::" + cls and "ctor" in pend:
             v = pend.pop("ctor")
-            out.append({"op": "New", "o": oid(vals[0]["v"]), "m": "", "v": 0, "init": {"value": v, "ro": 2 * v, "alt": 4 * v + 2}})
+            out.append({"op": "New", "o": oid(vals[0]["v"]), "m": "", "v": 0, "init": dict({"value": v, "ro": 2 * v, "alt": 4 * v + 2}, **EXTRA_INIT)})
         elif ev == "LibEnter" and f == "Derived::Derived":
             pend["dctor"] = num(vals[0])
         elif ev == "LibExit" and f == "Derived::Derived" and "dctor" in pend:
             v = pend.pop("dctor")
-            out.append({"op": "New", "o": oid(vals[0]["v"]), "m": "", "v": 0, "init": {"value": v, "ro": 2 * v, "alt": 4 * v + 2}})
+            out.append({"op": "New", "o": oid(vals[0]["v"]), "m": "", "v": 0, "init": dict({"value": v, "ro": 2 * v, "alt": 4 * v + 2}, **EXTRA_INIT)})
         elif ev == "LibEnter" and f in (cls + "::~" + cls, "Derived::~Derived"):
             out.append({"op": "Delete", "o": oid(vals[0]["v"]), "m": "", "v": 0})
         elif ev == "LibEnter" and f == cls + "::set":
@@ -488,6 +492,8 @@ def member_trace(events, cls="Cls", out=None):
             pend["get"] = oid(vals[0]["v"])
         elif ev == "LibExit" and f == cls + "::get" and "get" in pend:
             out.append({"op": "LGet", "o": pend.pop("get"), "m": "value", "v": num(vals[0])})
+        elif ev == "MemberBad":
+            out.append({"op": "WBad", "o": oid(vals[0]["v"]), "m": f, "v": num(vals[1])})
         elif ev in ("MemberSet", "MemberGet"):
             out.append({"op": "WSet" if ev == "MemberSet" else "WGet", "o": oid(vals[0]["v"]), "m": f, "v": num(vals[1])})
     if outdir and os.path.isdir(outdir):
